@@ -1283,6 +1283,11 @@ impl GenericIfData {
                     }
                 }
             }
+            Self::Sequence(items) | Self::Array(items) => {
+                for item in items {
+                    item.merge_includes();
+                }
+            }
             _ => {}
         }
     }
